@@ -373,15 +373,24 @@ size_t SimpleString::count(const SimpleString& substr) const
 
 void SimpleString::split(const SimpleString& delimiter, SimpleStringCollection& col) const
 {
-    size_t num = count(delimiter);
-    size_t extraEndToken = (endsWith(delimiter)) ? 0 : 1U;
+    size_t delimiterLength = delimiter.size();
+    size_t step = (delimiterLength > 0) ? delimiterLength : 1U;
+
+    size_t num = 0;
+    const char* str = getBuffer();
+    const char* found;
+    while (*str && (found = StrStr(str, delimiter.getBuffer())) != NULLPTR) {
+        num++;
+        str = found + step;
+    }
+    size_t extraEndToken = (*str == '\0' && endsWith(delimiter)) ? 0 : 1U;
     col.allocate(num + extraEndToken);
 
-    const char* str = getBuffer();
+    str = getBuffer();
     const char* prev;
     for (size_t i = 0; i < num; ++i) {
         prev = str;
-        str = StrStr(str, delimiter.getBuffer()) + 1;
+        str = StrStr(str, delimiter.getBuffer()) + step;
         col[i] = SimpleString(prev).subString(0, size_t (str - prev));
     }
     if (extraEndToken) {
